@@ -1,4 +1,4 @@
-//! Caller probes (`--prop C08 | C09 | C13 | C14 | C17 | C19`): small user crates, each compiled separately by rustc
+//! Caller probes (`--prop C02 | C08 | C09 | C12 | C13 | C14 | C17 | C19`): small user crates, each compiled separately by rustc
 //! against the current crate (harness::probe), that use a property's operations the way downstream code
 //! does and the harness crate itself does not:
 //!   * generic over the length / element type, stating exactly the bounds the trait impls publish
@@ -82,6 +82,37 @@ fn main() { println!("{:?}", rm(arr![1u32, 2, 3, 4], 1)); println!("{:?}", rm(ar
 "#,
                 expect: "(2, [1, 3, 4], 2, [1, 4, 3])\n(4, [1, 2, 3], 4, [1, 2, 3])\n(8, [], 8, [])\n",
             },
+            Caller {
+                what: "the sequence operations with method syntax on arrays whose ELEMENTS are arrays, and on arrays of borrowed elements",
+                externs: &[],
+                src: r#"
+fn borrowed<'a>(s: &'a String, t: &'a String) -> Vec<&'a str> {
+    let a: GenericArray<&'a str, U2> = arr![s.as_str(), t.as_str()];
+    let b: GenericArray<&'a str, U1> = arr![&s[1..]];
+    let c = a.concat(b);
+    let (h, rest) = c.pop_front();
+    let d = rest.append(h).prepend("z");
+    let (x, y): (GenericArray<&'a str, U1>, GenericArray<&'a str, U3>) = d.split();
+    let (r, z) = y.remove(1);
+    let mut v = x.to_vec(); v.push(r); v.extend(z.iter().copied()); v
+}
+fn main() {
+    let rows: GenericArray<GenericArray<u64, U3>, U2> = arr![arr![1u64, 2, 3], arr![4u64, 5, 6]];
+    let more: GenericArray<GenericArray<u64, U3>, U1> = arr![arr![7u64, 8, 9]];
+    let all = rows.concat(more);
+    println!("{} {:?}", all.len(), all[2].as_slice());
+    let (first, rest) = all.pop_front();
+    let back = rest.append(first);
+    println!("{:?} {:?}", back[0].as_slice(), back[2].as_slice());
+    let (x, r) = back.remove(1);
+    let (p, q): (GenericArray<GenericArray<u64, U3>, U1>, GenericArray<GenericArray<u64, U3>, U1>) = r.split();
+    println!("{:?} {:?} {:?}", x.as_slice(), p[0].as_slice(), q[0].as_slice());
+    let (s, t) = (String::from("abc"), String::from("de"));
+    println!("{:?}", borrowed(&s, &t));
+}
+"#,
+                expect: "3 [7, 8, 9]\n[4, 5, 6] [1, 2, 3]\n[7, 8, 9] [4, 5, 6] [1, 2, 3]\n[\"z\", \"bc\", \"de\", \"abc\"]\n",
+            },
         ],
         "C14" => vec![Caller {
             what: "{:x} / {:X} / {:.3x} in code generic over N with the bounds of `impl LowerHex` / `impl UpperHex`",
@@ -150,6 +181,26 @@ fn main() { println!("{}", sums(arr![1, 2, 3], arr![10, 20, 30])); println!("{}"
 "#,
                 expect: "66\n66\n",
             },
+            Caller {
+                what: "map / fold / zip with their generic arguments NAMED (turbofish, UFCS), and a caller generic over the receiver that spells the result type through the published associated types",
+                externs: &[],
+                src: r#"
+fn widen<S>(s: S) -> <<S as MappedGenericSequence<u8, u64>>::Mapped as GenericSequence<u64>>::Sequence
+where S: FunctionalSequence<u8> + MappedGenericSequence<u8, u64>, S::Item: core::borrow::Borrow<u8>
+{ s.map(|x| *core::borrow::Borrow::<u8>::borrow(&x) as u64 * 3) }
+fn main() {
+    let a = arr![1u8, 2, 3];
+    let m = a.map::<u64, _>(|x| x as u64 + 1);
+    let f = (&a).fold::<u64, _>(0, |acc, x| acc * 10 + *x as u64);
+    let z = FunctionalSequence::zip::<u8, _, u16, _>(a, arr![10u8, 20, 30], |x, y| x as u16 + y as u16);
+    println!("{:?} {} {:?}", m.as_slice(), f, z.as_slice());
+    let w: GenericArray<u64, U3> = widen(arr![1u8, 2, 3]);
+    let wr: GenericArray<u64, U2> = widen(&arr![4u8, 5]);
+    println!("{:?} {:?}", w.as_slice(), wr.as_slice());
+}
+"#,
+                expect: "[2, 3, 4] 123 [11, 22, 33]\n[3, 6, 9] [12, 15]\n",
+            },
         ],
         "C19" => vec![Caller {
             what: "zeroize() from a caller generic over T: Zeroize, and on an array of elements that BORROW (no 'static bound)",
@@ -173,6 +224,64 @@ fn main() {
 "#,
             expect: "[0, 0, 0] [0, 0]\n[0, 0, 0]\n",
         }],
+        "C02" => vec![
+            Caller {
+                what: "slice methods reached through auto-deref with the crate's traits glob-imported (reverse, sort, swap, rotate, fill write through to the array), and the slice views of an array of arrays with an inferred element type",
+                externs: &[],
+                src: r#"
+fn main() {
+    let mut a = arr![3u32, 1, 2, 4];
+    a.reverse(); println!("{:?}", a.as_slice());
+    a.sort(); println!("{:?}", a.as_slice());
+    a.swap(0, 3); a.rotate_left(1); println!("{:?}", a.as_slice());
+    a.fill(7); println!("{:?} {} {:?} {:?}", a.as_slice(), a.contains(&7), a.first(), a.last());
+    { let r: &mut GenericArray<u32, U4> = &mut a; r[1] = 9; r.reverse(); }
+    println!("{:?} {:?} {}", a.as_slice(), a.iter().position(|x| *x == 9), a.len());
+    let rows: GenericArray<GenericArray<u8, U2>, U3> = arr![arr![1u8, 2], arr![3u8, 4], arr![5u8, 6]];
+    let v: &[_] = rows.as_ref();
+    println!("{} {:?}", v.len(), v[1].as_slice());
+    let s: &[GenericArray<u8, U2>] = &rows;
+    println!("{}", s.len());
+    let mut m = rows;
+    { let w: &mut [_] = m.as_mut(); w[0][1] = 9; }
+    let b: &[GenericArray<u8, U2>] = core::borrow::Borrow::borrow(&m);
+    println!("{:?} {}", m[0].as_slice(), b.len());
+    let mut t = arr![String::from("b"), String::from("a")];
+    t.reverse(); t.sort(); t.swap(0, 1);
+    println!("{:?}", t.as_slice());
+}
+"#,
+                expect: "[4, 2, 1, 3]\n[1, 2, 3, 4]\n[2, 3, 1, 4]\n[7, 7, 7, 7] true Some(7) Some(7)\n[7, 7, 9, 7] Some(2) 4\n3 [3, 4]\n3\n[1, 9] 3\n[\"b\", \"a\"]\n",
+            },
+        ],
+        "C12" => vec![
+            Caller {
+                what: "the by-value sequence operations called with method syntax on a BOXED array: auto-deref moves the array out of the box and the results are plain arrays of the lengths the impls of GenericArray state",
+                externs: &[],
+                src: r#"
+fn main() {
+    let b = Box::new(arr![1u32, 2, 3, 4, 5]);
+    let (x, y): (GenericArray<u32, U2>, GenericArray<u32, U3>) = b.split();
+    println!("{:?} {:?}", x.as_slice(), y.as_slice());
+    let c = Box::new(arr![arr![1u8, 2], arr![3u8, 4]]);
+    let f: GenericArray<u8, U4> = c.flatten();
+    let u: GenericArray<GenericArray<u8, U2>, U2> = Box::new(f).unflatten();
+    println!("{:?} {:?}", f.as_slice(), u[1].as_slice());
+    let e: GenericArray<u8, U4> = Box::new(arr![1u8, 2, 3]).append(4);
+    let p: GenericArray<u8, U4> = Box::new(arr![1u8, 2, 3]).prepend(0);
+    let (i, l): (GenericArray<u8, U1>, u8) = Box::new(arr![1u8, 2]).pop_back();
+    let (h, t): (u8, GenericArray<u8, U1>) = Box::new(arr![1u8, 2]).pop_front();
+    let g: GenericArray<u8, U3> = Box::new(arr![1u8, 2]).concat(arr![3u8]);
+    let (r, rest): (u8, GenericArray<u8, U2>) = Box::new(arr![1u8, 2, 3]).remove(0);
+    println!("{:?} {:?} {:?} {} {} {:?} {:?} {} {:?}", e.as_slice(), p.as_slice(), i.as_slice(), l, h, t.as_slice(), g.as_slice(), r, rest.as_slice());
+    let z: GenericArray<GenericArray<(), U2>, U3> = Default::default();
+    let fz: GenericArray<(), U6> = Box::new(z).flatten();
+    println!("{}", fz.len());
+}
+"#,
+                expect: "[1, 2] [3, 4, 5]\n[1, 2, 3, 4] [3, 4]\n[1, 2, 3, 4] [0, 1, 2, 3] [1] 2 1 [2] [1, 2, 3] 1 [2, 3]\n6\n",
+            },
+        ],
         "C13" => vec![
             Caller {
                 what: "comparisons whose other side is INFERRED from the array (Default::default(), .into(), collect()): one candidate impl only",
